@@ -274,9 +274,9 @@ def step (s : St) (i : Nat) : St :=
   | .looked =>    -- `os.mkdir(d)` (FileExistsError is swallowed)
     { s with dirExists := if s.need i then true else s.dirExists,
              pc := fun j => if j = i then .made else s.pc j }
-  | .made =>      -- `started_building_file`: locked; the first reservation decides who created d
+  | .made =>      -- `started_building_file`: locked; whoever made d registers it, whether or not it reserves it first
     { s with count := s.count + 1,
-             created := if s.count = 0 then s.need i else s.created,
+             created := s.created || s.need i,
              pc := fun j => if j = i then .registered else s.pc j }
   | .registered => s
 
@@ -285,11 +285,136 @@ def run (s : St) (sched : List Nat) : St := sched.foldl step s
 /-- every sequential order records the directory as created -/
 example : (run {} [0, 0, 0, 1, 1, 1]).created = true ∧ (run {} [1, 1, 1, 0, 0, 0]).created = true := by decide
 
-/-- **C09 is false of the code** (known finding D7): one preemption between a thread's `mkdir` and its
-    registration makes the other thread see the directory as pre-existing and register first: nobody is
-    recorded as its creator, `clean` leaves it behind. -/
-theorem arbitration_counterexample :
-    (run {} [0, 0, 1, 1, 1, 0]).created = false ∧ (run {} [0, 0, 1, 1, 1, 0]).dirExists = true ∧
+/-- the registration as it was before the repair of D7 (`if count > 0: break` came before the look at
+    `created_dirs`): the first reservation alone decided who created d -/
+def stepFirstOnly (s : St) (i : Nat) : St :=
+  match s.pc i with
+  | .made => { s with count := s.count + 1, created := if s.count = 0 then s.need i else s.created,
+                      pc := fun j => if j = i then .registered else s.pc j }
+  | _ => step s i
+
+/-- the defect D7, kept as a regression witness: with the old registration one preemption between a thread's
+    `mkdir` and its registration made the other thread see the directory as pre-existing and register first;
+    nobody was recorded as its creator and `clean` left it behind.  The model is sensitive to the mechanism. -/
+theorem arbitration_counterexample_before_fix :
+    ([0, 0, 1, 1, 1, 0].foldl stepFirstOnly ({} : St)).created = false ∧
+    ([0, 0, 1, 1, 1, 0].foldl stepFirstOnly ({} : St)).dirExists = true := by decide
+
+/-- what every interleaving keeps: the directory exists only if a thread that believes it has to make it has
+    got past `mkdir`; such a thread has registered it once it is through; and it is recorded as created only
+    if it exists -/
+structure ArbInv (s : St) : Prop where
+  maker : s.dirExists = true → ∃ i, s.need i = true ∧ (s.pc i = .made ∨ s.pc i = .registered)
+  recorded : ∀ i, s.pc i = .registered → s.need i = true → s.created = true
+  real : s.created = true → s.dirExists = true
+  made : ∀ i, s.need i = true → (s.pc i = .made ∨ s.pc i = .registered) → s.dirExists = true
+  fresh : ∀ i, s.pc i = .start → s.need i = false
+
+theorem arbInv_init : ArbInv {} :=
+  ⟨by simp, by simp, by simp, by simp, by simp⟩
+
+theorem arbInv_step (s : St) (i : Nat) (h : ArbInv s) : ArbInv (step s i) := by
+  unfold step
+  cases hp : s.pc i with
+  | start =>
+    simp only
+    refine ⟨?_, ?_, ?_, ?_, ?_⟩
+    · intro hd
+      obtain ⟨k, hk, hk'⟩ := h.maker hd
+      have hki : k ≠ i := by intro e; subst e; rw [hp] at hk'; rcases hk' with e | e <;> cases e
+      exact ⟨k, by simp [hki, hk], by simpa [hki] using hk'⟩
+    · intro k hk hn
+      by_cases hki : k = i
+      · subst hki; simp at hk
+      · simp only [hki, if_false] at hk hn; exact h.recorded k hk hn
+    · exact h.real
+    · intro k hn hk
+      by_cases hki : k = i
+      · subst hki; simp at hk
+      · simp only [hki, if_false] at hk hn; exact h.made k hn hk
+    · intro k hk
+      by_cases hki : k = i
+      · subst hki; simp at hk
+      · simp only [hki, if_false] at hk ⊢; exact h.fresh k hk
+  | looked =>
+    simp only
+    refine ⟨?_, ?_, ?_, ?_, ?_⟩
+    · intro hd
+      by_cases hn : s.need i = true
+      · exact ⟨i, hn, by simp⟩
+      · simp only [hn] at hd
+        obtain ⟨k, hk, hk'⟩ := h.maker (by simpa using hd)
+        have hki : k ≠ i := by intro e; subst e; exact hn hk
+        exact ⟨k, hk, by simpa [hki] using hk'⟩
+    · intro k hk hn
+      by_cases hki : k = i
+      · subst hki; simp at hk
+      · simp only [hki, if_false] at hk; exact h.recorded k hk hn
+    · intro hc
+      have := h.real hc
+      split <;> simp [this]
+    · intro k hn hk
+      by_cases hki : k = i
+      · subst hki; have hn' : s.need k = true := hn; simp [hn']
+      · simp only [hki, if_false] at hk
+        have := h.made k hn hk
+        split <;> simp [this]
+    · intro k hk
+      by_cases hki : k = i
+      · subst hki; simp at hk
+      · simp only [hki, if_false] at hk; exact h.fresh k hk
+  | made =>
+    simp only
+    refine ⟨?_, ?_, ?_, ?_, ?_⟩
+    · intro hd
+      obtain ⟨k, hk, hk'⟩ := h.maker hd
+      by_cases hki : k = i
+      · exact ⟨k, hk, by simp [hki]⟩
+      · exact ⟨k, hk, by simpa [hki] using hk'⟩
+    · intro k hk hn
+      by_cases hki : k = i
+      · subst hki; have hn' : s.need k = true := hn; simp [hn']
+      · simp only [hki, if_false] at hk; simp [h.recorded k hk hn]
+    · intro hc
+      simp only [Bool.or_eq_true] at hc
+      rcases hc with hc | hc
+      · exact h.real hc
+      · exact h.made i hc (Or.inl hp)
+    · intro k hn hk
+      by_cases hki : k = i
+      · subst hki; exact h.made k hn (Or.inl hp)
+      · simp only [hki, if_false] at hk; exact h.made k hn hk
+    · intro k hk
+      by_cases hki : k = i
+      · subst hki; simp at hk
+      · simp only [hki, if_false] at hk; exact h.fresh k hk
+  | registered => exact h
+
+theorem arbInv_run (sched : List Nat) (s : St) (h : ArbInv s) : ArbInv (run s sched) := by
+  induction sched generalizing s with
+  | nil => exact h
+  | cons i r ih => exact ih _ (arbInv_step s i h)
+
+/-- **C09, directory arbitration**: under every interleaving of any number of threads, once every thread that
+    started is through, the directory is recorded as created by the build exactly if it exists — which is what
+    each sequential order gives.  (And at every moment it is recorded only if it exists.) -/
+theorem arbitration_correct (sched : List Nat)
+    (hdone : ∀ i, (run {} sched).pc i = .start ∨ (run {} sched).pc i = .registered) :
+    (run {} sched).created = (run {} sched).dirExists := by
+  have h := arbInv_run sched {} arbInv_init
+  cases hd : (run {} sched).dirExists with
+  | false =>
+    cases hc : (run {} sched).created with
+    | false => rfl
+    | true => rw [h.real hc] at hd; cases hd
+  | true =>
+    obtain ⟨k, hk, hk'⟩ := h.maker hd
+    rcases hdone k with e | e
+    · rw [h.fresh k e] at hk; cases hk
+    · exact h.recorded k e hk
+
+/-- the schedule on which the old registration went wrong now ends with the directory recorded -/
+example : (run {} [0, 0, 1, 1, 1, 0]).created = true ∧ (run {} [0, 0, 1, 1, 1, 0]).dirExists = true ∧
     (run {} [0, 0, 1, 1, 1, 0]).count = 2 := by decide
 
 /-- what does hold under every schedule: the reservation count is the number of registered threads
